@@ -32,7 +32,12 @@ RULE = ("arrays built from seeded recipes (uniform / clustered / constant / "
         "one 4000 (quick), 0..6000 plus 2e4, 5e4, 1e5 (thorough); requests 0, 1, 2, around the "
         "number of valid points, around N, beyond N and random; both "
         "remove_invalid modes; datasets (RTDC_Dict) with box, polygon, manual "
-        "and invalid filters, 'limit events', linear and log scale. "
+        "and invalid filters, 'limit events', linear and log scale, features "
+        "stored as float64/float32/uint8/int16, upper-case axis names, "
+        "xax == yax, empty datasets, hierarchy children, filter histories "
+        "(limit / manual / box edits between apply_filter calls), requests "
+        "and limits >= 2**32 as int and np.int64; array functions are also "
+        "called with default keywords, positionally and with ret_idx=False. "
         "A case is non-trivial when a grid/random selection step actually ran "
         "(at least one np.random.choice draw) or invalid points were padded or "
         "removed; distinct = different recipe/request/mode")
@@ -47,7 +52,9 @@ TRUSTED_BASE = [
     "299 is an integer)",
     "cast of NaN to uint32 (constant axis) modelled as observed on this "
     "machine: blocks of four give 2**31, the remainder 0",
-    "_apply_scale is elementwise; np.log computed by the harness",
+    "_apply_scale is elementwise: the feature as float64 (linear) or "
+    "np.log computed by the harness (log); log_ok (finite exactly for finite "
+    "positive arguments) checked on every scaled array",
     "the de-cythoniser harness/translators/decythonize.py and the translator "
     "harness/translators/downsample_pyx.py (Gen/DownsampleGen.v; fixed "
     "statement skeleton + expression grammar, fails closed)",
@@ -58,16 +65,23 @@ TRUSTED_BASE = [
     "box/polygon/invalid/manual filter arrays are inputs (C03/C15)",
 ]
 ASSUMPTIONS = [
-    "a and b have the same length, float64, C-contiguous",
-    "0 <= samples < 2**32 (np.uint32(samples) raises otherwise)",
-    "finite values are k/8 with |k| < 2**40 (no overflow in max - min)",
+    "a and b have the same length, float64, C-contiguous (float32 inputs: "
+    "oracle only, corpus 15)",
+    "arrays and datasets have fewer than 2**32 events",
+    "np.uint32(samples) is modelled (to_uint32): Python ints outside "
+    "0..2**32-1 raise, numpy integers wrap; float requests are not generated",
+    "finite values are k/8 with |k| < 2**40; a range max - min that overflows "
+    "to inf is the same defect as a constant axis (corpus 20, oracle only)",
     "theorems guard: samples <= N when remove_invalid is False "
-    "(C16-grid-pad-overrequest) and no constant axis when the grid step runs "
-    "(C16-grid-constant-axis)",
+    "(C16-grid-pad-overrequest, array level only since fix C16-cap-request), "
+    "no constant axis when the grid step runs on >= 4 valid points "
+    "(C16-grid-constant-axis), request < 2**32 at the array level "
+    "(C16-request-uint32)",
 ]
 
 F_PAD = "C16-grid-pad-overrequest"
 F_CONST = "C16-grid-constant-axis"
+F_U32 = "C16-request-uint32"
 
 HEADER = ("From Coq Require Import ZArith List.\nImport ListNotations.\n"
           "From Verif Require Import Model.C16.\n")
@@ -150,11 +164,20 @@ def perturb(rng):
     np.random.rand(rng.randint(0, 5))
 
 
+_CLEAR = [0]
+
+
 def clear_cache():
-    # same effect as Cache.clear_cache() without its gc.collect() (30 ms)
+    """Empty dclab's result cache. Every 8th time through the public
+    Cache.clear_cache() (its gc.collect() costs 30 ms), otherwise by
+    resetting the two class attributes it resets."""
     from dclab.cached import Cache
-    Cache._keys = []
-    Cache._cache = {}
+    _CLEAR[0] += 1
+    if _CLEAR[0] % 8 == 0:
+        Cache.clear_cache()
+    else:
+        Cache._keys = []
+        Cache._cache = {}
 
 
 # --------------------------------------------------------------------------
@@ -237,7 +260,7 @@ def flat_result(asd, bsd, keep):
             + flat_vals(asd) + flat_vals(bsd))
 
 
-ERR = {"ValueError": 1, "IndexError": 2}
+ERR = {"ValueError": 1, "IndexError": 2, "OverflowError": 5}
 
 
 def flat_error(e):
@@ -375,6 +398,10 @@ def case_arrays(case):
         b = to_float(bv, bt)
         pa = list(zip(at.tolist(), av.tolist()))
         pb = list(zip(bt.tolist(), bv.tolist()))
+    elif "af" in case:          # plain floats (oracle only, no model run)
+        a = np.array(case["af"], dtype=np.float64)
+        b = np.array(case.get("bf", case["af"]), dtype=np.float64)
+        pa = pb = []
     else:
         pa = [tuple(p) for p in case["a"]]
         pb = [tuple(p) for p in case.get("b", case["a"])]
@@ -384,6 +411,7 @@ def case_arrays(case):
 
 
 def pick_samples(rng, n, ngood):
+    # U32 is defined below (module level)
     c = rng.random()
     cands = [0, 1, 2, ngood - 1, ngood, ngood + 1, n - 1, n, n + 1,
              n + rng.randint(2, 9), 2 * n + 3, max(1, ngood // 2),
@@ -394,6 +422,8 @@ def pick_samples(rng, n, ngood):
         s = rng.randint(1, max(1, ngood))
     else:
         s = rng.randint(1, max(1, n))
+    if rng.random() < 0.04:
+        s = rng.choice([U32 - 1, U32, U32 + 3, U32 + n, 10 ** 12])
     return max(0, int(s))
 
 
@@ -434,7 +464,7 @@ def gen_array_case(rng, thorough, kind):
     else:
         ngood = int(((at == 0) & (bt == 0)).sum())
     return dict(kind=kind, recipe=rc, samples=pick_samples(rng, rc["n"], ngood),
-                ri=int(rng.random() < 0.5))
+                ri=int(rng.random() < 0.5), np=int(rng.random() < 0.2))
 
 
 DS_FEATS = ["area_um", "deform", "bright_avg"]
@@ -442,13 +472,14 @@ DS_FEATS = ["area_um", "deform", "bright_avg"]
 
 def gen_ds_case(rng, thorough):
     import numpy as np
-    n = max(1, gen_size(rng, thorough, big_ok=False))
+    n = gen_size(rng, thorough, big_ok=False)
     if n > 150:
         n = n // 4
     seed = rng.randint(0, 2 ** 31 - 1)
     feats = {}
     for f in DS_FEATS:
-        feats[f] = dict(shape=rng.choice(["uniform", "clustered", "dupes",
+        feats[f] = dict(dtype=rng.choice(["f8", "f8", "f8", "f4", "u1", "i2"]),
+                        shape=rng.choice(["uniform", "clustered", "dupes",
                                           "ramp", "uniform", "constant"]
                                          if f != "area_um" else
                                          ["uniform", "clustered", "ramp",
@@ -483,7 +514,8 @@ def gen_ds_case(rng, thorough):
                 with np.errstate(all="ignore"):
                     est &= (data[f] * 8 >= lo) & (data[f] * 8 <= hi)
     manual = sorted(set(rng.randint(0, n - 1)
-                        for _ in range(rng.choice([0, 0, 1, 3, n // 3]))))
+                        for _ in range(rng.choice([0, 0, 1, 3, n // 3])
+                                       if n else 0)))
     est[manual] = False
     rie = int(rng.random() < 0.3)
     if rie:
@@ -504,26 +536,68 @@ def gen_ds_case(rng, thorough):
     enable = int(rng.random() < 0.9)
     cnt = int(est.sum()) if enable else n      # estimate, polygon approximate
     limit = rng.choice([0, 0, 1, 2, cnt // 2, cnt - 1, cnt, cnt + 1, 2 * n,
-                        rng.randint(1, max(1, cnt))])
+                        rng.randint(1, max(1, cnt)),
+                        rng.choice([U32 - 1, U32, U32 + 3, 10 ** 12])])
     limit = max(0, int(limit))
     cnt2 = min(limit, cnt) if (limit > 0 and enable) else cnt
-    reqs = []
-    for _ in range(rng.randint(2, 4)):
+    def spell(name):
+        c = rng.random()
+        return name if c < 0.85 else name.upper() if c < 0.92 \
+            else name.capitalize()
+
+    def gen_req(cnt2):
         xax, yax = rng.sample(DS_FEATS, 2)
+        if rng.random() < 0.1:
+            yax = xax
         d = rng.choice([0, 1, 2, cnt2 // 3, cnt2 // 2, cnt2 - 1, cnt2,
                         cnt2 + 1, n, n + 1, 3 * n,
                         rng.randint(1, max(1, cnt2)),
                         rng.randint(1, max(1, cnt2))])
-        reqs.append(dict(xax=xax, yax=yax, downsample=max(0, int(d)),
-                         xscale=rng.choice(["linear", "log"]),
-                         yscale=rng.choice(["linear", "linear", "log"]),
-                         ri=int(rng.random() < 0.5)))
+        if rng.random() < 0.06:
+            d = rng.choice([U32 - 1, U32, U32 + 3, 10 ** 12])
+        return dict(xax=spell(xax), yax=spell(yax), downsample=max(0, int(d)),
+                    np=int(rng.random() < 0.15),
+                    xscale=rng.choice(["linear", "log"]),
+                    yscale=rng.choice(["linear", "linear", "log"]),
+                    ri=int(rng.random() < 0.5))
+    reqs = [gen_req(cnt2) for _ in range(rng.randint(2, 4))]
+    # a filter history on the same dataset: limit and manual/box edits
+    # between two apply_filter calls (stale selections must not survive)
+    history = []
+    prev = limit
+    for _ in range(rng.choice([0, 1, 1, 2, 3])):
+        if rng.random() < 0.5:
+            lim = prev      # unchanged limit, only the other filters change
+        else:
+            lim = max(0, int(rng.choice(
+                [0, 1, cnt // 2, cnt, cnt + 1, U32, 10 ** 12,
+                 rng.randint(1, max(1, cnt))])))
+        step = dict(limit=lim)
+        prev = lim
+        if n and rng.random() < 0.7:
+            step["manual_false"] = sorted(set(
+                rng.randint(0, n - 1) for _ in range(rng.randint(1, 4))))
+        if manual and rng.random() < 0.4:
+            step["manual_true"] = rng.sample(manual, 1)
+        if rng.random() < 0.3 or (n and "manual_false" not in step
+                                  and "manual_true" not in step):
+            f = rng.choice(DS_FEATS)
+            step["box"] = {f: quant(f, rng.choice([0, 0.2]),
+                                    rng.choice([1, 0.8]))}
+        step["request"] = gen_req(max(1, cnt // 2))
+        history.append(step)
     case.update(box=box, manual=manual, poly=poly, limit=limit, enable=enable,
-                rie=rie, requests=reqs, child=int(rng.random() < 0.3))
+                rie=rie, requests=reqs, child=int(rng.random() < 0.3),
+                history=history)
     return case
 
 
+NP_DTYPES = {"f8": "float64", "f4": "float32", "u1": "uint8", "i2": "int16"}
+
+
 def ds_arrays(case):
+    """float64 value arrays of the features (what the oracle and the model
+    see); typed_arrays() gives what the dataset is built from"""
     import numpy as np
     rs = np.random.RandomState(case["seed"])
     n = case["n"]
@@ -535,12 +609,32 @@ def ds_arrays(case):
             out[f] = pairs_to_array(pairs)
             continue
         v = axis_values(rs, n, spec["shape"])
-        if spec["positive"]:
+        dt = spec.get("dtype", "f8")
+        if spec["positive"] or dt == "u1":
             v = np.abs(v) + (1 if spec["positive"] else 0)
         t = inject(rs, n, spec["special"])
+        if dt in ("u1", "i2"):
+            # integer typed feature: whole numbers, no nan/inf
+            v = v % 200 - (0 if spec["positive"] or dt == "u1" else 60)
+            t[:] = 0
+            avoid_rounding(v, t == 0)
+            out[f] = v.astype(np.float64)
+            continue
         avoid_rounding(v, t == 0)
         v[t != 0] = 0
         out[f] = to_float(v, t)
+    return out
+
+
+def typed_arrays(case, data):
+    import numpy as np
+    out = {}
+    for f, v in data.items():
+        dt = NP_DTYPES[case["feats"][f].get("dtype", "f8")]
+        arr = v.astype(dt)
+        if not np.array_equal(arr.astype(np.float64), v, equal_nan=True):
+            raise ValueError("feature %s not representable as %s" % (f, dt))
+        out[f] = arr
     return out
 
 
@@ -564,12 +658,16 @@ def call(fn, *args, **kw):
 
 
 def constant_axis(a, b):
-    """some axis has identical valid values (at least 4 valid points)"""
+    """norm() yields NaN on some axis: the valid values are all equal or their
+    range overflows to inf (at least 4 valid points)"""
     import numpy as np
     good = np.isfinite(a) & np.isfinite(b)
     if good.sum() < 4:
         return False
-    return bool(np.ptp(a[good]) == 0 or np.ptp(b[good]) == 0)
+    with np.errstate(all="ignore"):
+        pa, pb = np.ptp(a[good]), np.ptp(b[good])
+    return bool(pa == 0 or pb == 0 or not np.isfinite(pa)
+                or not np.isfinite(pb))
 
 
 def classify_grid(exc, a, b, samples, ri):
@@ -607,6 +705,9 @@ def oracle_selection(vals, ret, keep, request, eligible_mask, ri, what):
     return None
 
 
+U32 = 2 ** 32
+
+
 def exec_array_case(case, rng):
     """-> dict(checks=[(rendered, {mod: flat})], fails=[(desc, finding)],
                nontrivial, problems=[str])"""
@@ -614,67 +715,107 @@ def exec_array_case(case, rng):
     mods = get_modules()
     a, b, pa, pb = case_arrays(case)
     samples, ri = int(case["samples"]), bool(case["ri"])
+    np_scalar = bool(case.get("np"))        # request passed as np.int64
+    req = np.int64(samples) if np_scalar else samples
     grid = case["kind"] == "grid"
     flats = {}
     fails = []
     problems = []
     rows = {}
     nontrivial = False
-    results = {}
     for name, mod in mods.items():
-        if grid:
-            def fn(mod=mod, a=a, b=b):
-                return call(mod.downsample_grid, a, b, samples,
-                            remove_invalid=ri, ret_idx=True)
-        else:
-            def fn(mod=mod, a=a, b=b):
-                return call(mod.downsample_rand, a, samples,
-                            remove_invalid=ri, ret_idx=True)
+        f = mod.downsample_grid if grid else mod.downsample_rand
+
+        def fn(a=a, b=b, **kw):
+            args = (a, b, req) if grid else (a, req)
+            return call(f, *args, **kw)
         clear_cache()
         perturb(rng)
         with Recorder() as rec:
-            r1 = fn()
-            r2 = fn()               # cached path for downsample_grid
+            r1 = fn(remove_invalid=ri, ret_idx=True)
+            r2 = fn(remove_invalid=ri, ret_idx=True)   # cached path (grid)
+            r2b = r2
+            if grid and not isinstance(r2, Exception) \
+                    and not isinstance(r1, Exception):
+                # (downsample_rand may return its input array itself)
+                # a caller that modifies what a repeated call returned must
+                # not change what later calls return
+                keep_r2 = [np.array(x, copy=True) for x in r2]
+                for x in r2:
+                    if x.dtype == bool:
+                        x[...] = ~x
+                    else:
+                        x[...] = -7.0
+                r2b = fn(remove_invalid=ri, ret_idx=True)
+                r2 = tuple(keep_r2)
             clear_cache()
             perturb(rng)
-            r3 = fn(a=a.copy(), b=b.copy())     # other array objects
+            # other array objects
+            r3 = fn(a=a.copy(), b=b.copy(), remove_invalid=ri, ret_idx=True)
+            # the signature: ret_idx defaults to False, remove_invalid to
+            # False; positional form
+            perturb(rng)
+            r4 = fn(remove_invalid=ri)
+            r5 = fn(ret_idx=True) if not ri else r1
+            r6 = call(f, *((a, b, req, ri, True) if grid else (a, req, ri, True)))
         t, pr = table_from_calls(rec.calls)
         rows.update(t)
         problems += ["%s: %s" % (name, p) for p in pr]
         if rec.calls:
             nontrivial = True
-        results[name] = r1
-        what = "%s %s(samples=%d, remove_invalid=%s)" % (
-            name, "downsample_grid" if grid else "downsample_rand", samples, ri)
+        what = "%s %s(samples=%s%d, remove_invalid=%s)" % (
+            name, "downsample_grid" if grid else "downsample_rand",
+            "np.int64 " if np_scalar else "", samples, ri)
         if not same(r1, r2) or not same(r1, r3):
             fails.append(("%s: repeated calls disagree" % what, None))
+        if not same(r1, r2b):
+            fails.append(("%s: a call after the caller modified the arrays "
+                          "returned by the previous identical call gives a "
+                          "different result" % what, None))
+        if not same(r1, r5) or not same(r1, r6):
+            fails.append(("%s: default remove_invalid / positional call "
+                          "differs from the keyword call" % what, None))
         if isinstance(r1, Exception):
             flats[name] = flat_error(r1)
-            fid = classify_grid(r1, a, b, samples, ri) if grid else None
+            if isinstance(r1, OverflowError) and samples >= U32:
+                fid = F_U32
+            else:
+                fid = classify_grid(r1, a, b, samples, ri) if grid else None
             fails.append(("%s raised %r" % (what, r1), fid))
             continue
+        nret = 2 if grid else 1
+        r4t = r4 if nret == 2 else (r4,)
+        if isinstance(r4, Exception) or not same(tuple(r4t), tuple(r1[:nret])):
+            fails.append(("%s: ret_idx=False does not return the same "
+                          "events" % what, None))
         if grid:
             asd, bsd, keep = r1
             good = np.isfinite(a) & np.isfinite(b)
-            elig = good if ri else np.ones(len(a), dtype=bool)
-            msg = oracle_selection([a, b], [asd, bsd], keep, samples, elig, ri,
-                                   what)
+            vals, rets = [a, b], [asd, bsd]
             flats[name] = flat_result(asd, bsd, keep)
             if int(good.sum()) != len(a):
                 nontrivial = True
         else:
             dsa, keep = r1
             good = np.isfinite(a)
-            elig = good if ri else np.ones(len(a), dtype=bool)
-            msg = oracle_selection([a], [dsa], keep, samples, elig, ri, what)
+            vals, rets = [a], [dsa]
             flats[name] = flat_result(dsa, np.zeros(0), keep)
+        elig = good if ri else np.ones(len(a), dtype=bool)
+        msg = oracle_selection(vals, rets, keep, samples, elig, ri, what)
         if msg:
-            fails.append((msg, None))
+            fid = None
+            if samples >= U32 and np_scalar and oracle_selection(
+                    vals, rets, keep, samples % U32, elig, ri, what) is None:
+                fid = F_U32        # silent wrap modulo 2**32
+            fails.append((msg, fid))
+    if case.get("oracle_only"):
+        return dict(checks=[], fails=fails, nontrivial=nontrivial,
+                    problems=problems)
+    params = [samples, int(ri), int(np_scalar)]
     if grid:
-        rendered = render(0, [r_pairs(pa), r_pairs(pb)], [samples, int(ri)],
-                          rows)
+        rendered = render(0, [r_pairs(pa), r_pairs(pb)], params, rows)
     else:
-        rendered = render(1, [r_pairs(pa)], [samples, int(ri)], rows)
+        rendered = render(1, [r_pairs(pa)], params, rows)
     return dict(checks=[(rendered, flats)], fails=fails, nontrivial=nontrivial,
                 problems=problems)
 
@@ -707,9 +848,9 @@ def scaled(arr, scale):
     return arr
 
 
-def do_requests(ds, data, fall, requests, name, rng, obs, fails):
+def do_requests(ds, data, fall, requests, name, rng, obs, fails, problems):
     """get_downsampled_scatter requests on one dataset; data: the feature
-    arrays of that dataset as the harness knows them, fall: its filter.all"""
+    values of that dataset as the harness knows them, fall: its filter.all"""
     import numpy as np
     n = len(fall)
     if len(ds) != n:
@@ -717,34 +858,39 @@ def do_requests(ds, data, fall, requests, name, rng, obs, fails):
             name, len(ds), n), None))
         return
     for rq in requests:
+        req = rq["downsample"]
         kw = dict(xax=rq["xax"], yax=rq["yax"],
-                  downsample=rq["downsample"], xscale=rq["xscale"],
-                  yscale=rq["yscale"], remove_invalid=bool(rq["ri"]))
+                  downsample=np.int64(req) if rq.get("np") else req,
+                  xscale=rq["xscale"], yscale=rq["yscale"],
+                  remove_invalid=bool(rq["ri"]))
         what = "%s: get_downsampled_scatter(%s) with %d of %d " \
-               "events filtered" % (name, json.dumps(kw), int(fall.sum()), n)
+               "events filtered" % (name, json.dumps(dict(kw, downsample=req)),
+                                    int(fall.sum()), n)
         clear_cache()
         perturb(rng)
         r1 = call(ds.get_downsampled_scatter, ret_mask=True, **kw)
         r2 = call(ds.get_downsampled_scatter, ret_mask=True, **kw)
         perturb(rng)
         r0 = call(ds.get_downsampled_scatter, **kw)
-        xf, yf = data[rq["xax"]], data[rq["yax"]]
+        xf, yf = data[rq["xax"].lower()], data[rq["yax"].lower()]
         xs, ys = scaled(xf, rq["xscale"]), scaled(yf, rq["yscale"])
+        for v, sv, sc in ((xf, xs, rq["xscale"]), (yf, ys, rq["yscale"])):
+            # oracle hypothesis on the logarithm (log_bad in Model/C16.v)
+            if sc == "log" and not np.array_equal(
+                    np.isfinite(sv), np.isfinite(v) & (v > 0)):
+                problems.append("log oracle: np.log is finite exactly for "
+                                "finite positive arguments - violated")
         good = np.isfinite(xs) & np.isfinite(ys)
         extra = (rq, xf, yf, fall)
         if not same(r1, r2):
             fails.append((what + ": repeated calls disagree", None))
-        if isinstance(r1, ValueError) and rq["downsample"] < 0:
+        if isinstance(r1, ValueError) and req < 0:
             # documented rejection, not part of the quantifier
             obs.append(("scatter", [3], extra))
             continue
         if isinstance(r1, Exception):
             fid = None
-            req = rq["downsample"]
-            if isinstance(r1, ValueError) and not rq["ri"] and \
-                    req > int(fall.sum()):
-                fid = F_PAD
-            elif isinstance(r1, IndexError) and \
+            if isinstance(r1, IndexError) and \
                     0 < req < int((good & fall).sum()) and \
                     constant_axis(xs[fall], ys[fall]):
                 fid = F_CONST
@@ -755,11 +901,46 @@ def do_requests(ds, data, fall, requests, name, rng, obs, fails):
         if isinstance(r0, Exception) or not same(r0, (xr, yr)):
             fails.append((what + ": result without ret_mask differs", None))
         elig = (fall & good) if rq["ri"] else fall
-        msg = oracle_selection([xf, yf], [xr, yr], mask, rq["downsample"],
-                               elig, True, what)
+        msg = oracle_selection([xf, yf], [xr, yr], mask, req, elig, True, what)
         if msg:
             fails.append((msg, None))
         obs.append(("scatter", flat_result(xr, yr, mask), extra))
+
+
+def observe_filter(ds, case, limit, name, rng, obs, fails):
+    """apply_filter (twice) and compare filter.all with the other filters;
+    -> filter.all or None"""
+    import numpy as np
+    perturb(rng)
+    e = call(ds.apply_filter)
+    if isinstance(e, Exception):
+        fails.append(("%s: apply_filter with 'limit events'=%d raised %r" % (
+            name, limit, e), None))
+        obs.append(("error", flat_error(e), None))
+        return None
+    fl = ds.filter
+    box, inv, pol, man = (fl.box.copy(), fl.invalid.copy(),
+                          fl.polygon.copy(), fl.manual.copy())
+    fall = fl.all.copy()
+    perturb(rng)
+    ds.apply_filter()
+    if not np.array_equal(fall, ds.filter.all):
+        fails.append(("%s: applying the same filter twice gives a "
+                      "different 'limit events' selection" % name, None))
+    comb = box & inv & pol & man
+    if case["enable"]:
+        want = int(comb.sum()) if limit <= 0 else min(limit, int(comb.sum()))
+        if np.any(fall & ~comb):
+            fails.append(("%s: filter.all selects events excluded "
+                          "by the other filters" % name, None))
+        elif int(fall.sum()) != want:
+            fails.append((
+                "%s: 'limit events'=%d with %d filtered events "
+                "leaves %d events, expected %d" % (
+                    name, limit, int(comb.sum()), int(fall.sum()), want), None))
+    obs.append(("filter", [0, int(fall.sum())] + flat_mask(fall),
+                (box, inv, pol, man, fall, limit)))
+    return fall
 
 
 def exec_ds_case(case, rng):
@@ -767,6 +948,7 @@ def exec_ds_case(case, rng):
     import dclab
     mods = get_modules()
     data = ds_arrays(case)
+    typed = typed_arrays(case, data)
     n = case["n"]
     fails = []
     problems = []
@@ -777,7 +959,7 @@ def exec_ds_case(case, rng):
         obs = []
         with patched_downsampling(mod):
             dclab.PolygonFilter.clear_all_filters()
-            ds = dclab.new_dataset({k: v.copy() for k, v in data.items()})
+            ds = dclab.new_dataset({k: v.copy() for k, v in typed.items()})
             cfg = ds.config["filtering"]
             for f, (lo, hi) in case["box"].items():
                 cfg[f + " min"] = lo / 8.0
@@ -794,43 +976,14 @@ def exec_ds_case(case, rng):
             cfg["enable filters"] = bool(case["enable"])
             cfg["limit events"] = case["limit"]
             clear_cache()
-            perturb(rng)
             with Recorder() as rec:
-                e = call(ds.apply_filter)
-                if isinstance(e, Exception):
-                    fails.append(("%s: apply_filter raised %r" % (name, e),
-                                  None))
-                    per_mod[name] = [flat_error(e)]
-                    continue
-                fl = ds.filter
-                box, inv, pol, man = (fl.box.copy(), fl.invalid.copy(),
-                                      fl.polygon.copy(), fl.manual.copy())
-                fall = fl.all.copy()
-                perturb(rng)
-                ds.apply_filter()
-                if not np.array_equal(fall, ds.filter.all):
-                    fails.append(("%s: applying the same filter twice gives a "
-                                  "different 'limit events' selection" % name,
-                                  None))
-                comb = box & inv & pol & man
-                if case["enable"]:
-                    lim = case["limit"]
-                    want = int(comb.sum()) if lim <= 0 else min(lim,
-                                                                int(comb.sum()))
-                    if np.any(fall & ~comb):
-                        fails.append(("%s: filter.all selects events excluded "
-                                      "by the other filters" % name, None))
-                    elif int(fall.sum()) != want:
-                        fails.append((
-                            "%s: 'limit events'=%d with %d filtered events "
-                            "leaves %d events, expected %d" % (
-                                name, lim, int(comb.sum()), int(fall.sum()),
-                                want), None))
-                obs.append(("filter", [0, int(fall.sum())] + flat_mask(fall),
-                            (box, inv, pol, man, fall)))
-                do_requests(ds, data, fall, case["requests"], name, rng, obs,
-                            fails)
-                if case.get("child") and int(fall.sum()) > 0:
+                fall = observe_filter(ds, case, case["limit"], name, rng, obs,
+                                      fails)
+                if fall is not None:
+                    do_requests(ds, data, fall, case["requests"], name, rng,
+                                obs, fails, problems)
+                if fall is not None and case.get("child") and \
+                        int(fall.sum()) > 0:
                     # the same requests on a hierarchy child of the filtered
                     # dataset: its events are the filtered events of ds
                     child = call(dclab.new_dataset, ds)
@@ -842,7 +995,26 @@ def exec_ds_case(case, rng):
                         cdata = {k: v[fall] for k, v in data.items()}
                         do_requests(child, cdata, child.filter.all.copy(),
                                     case["requests"][:2], name + " child", rng,
-                                    obs, fails)
+                                    obs, fails, problems)
+                # filter history on the same dataset
+                for k, step in enumerate(case.get("history", [])):
+                    if fall is None:
+                        break
+                    cfg["limit events"] = step["limit"]
+                    for i in step.get("manual_false", []):
+                        ds.filter.manual[i] = False
+                    for i in step.get("manual_true", []):
+                        ds.filter.manual[i] = True
+                    for f, (lo, hi) in step.get("box", {}).items():
+                        cfg[f + " min"] = lo / 8.0
+                        cfg[f + " max"] = hi / 8.0
+                    fall = observe_filter(ds, case, step["limit"],
+                                          "%s step %d" % (name, k + 1), rng,
+                                          obs, fails)
+                    if fall is not None:
+                        do_requests(ds, data, fall, [step["request"]],
+                                    "%s step %d" % (name, k + 1), rng, obs,
+                                    fails, problems)
             t, pr = table_from_calls(rec.calls)
             rows.update(t)
             problems += ["%s: %s" % (name, p) for p in pr]
@@ -855,27 +1027,27 @@ def exec_ds_case(case, rng):
     names = list(per_mod)
     ref = per_mod[names[0]]
     for j, ob in enumerate(ref):
-        if not isinstance(ob, tuple):
-            continue
         flats = {}
         for nm in names:
             o = per_mod[nm]
-            flats[nm] = o[j][1] if j < len(o) and isinstance(o[j], tuple) \
-                else [99]
+            flats[nm] = o[j][1] if j < len(o) and o[j][0] == ob[0] else [99]
+        if ob[0] == "error":
+            if len(set(map(str, flats.values()))) > 1:
+                problems.append("modules disagree on an apply_filter error")
+            continue
         if ob[0] == "filter":
-            box, inv, pol, man, fall_ref = ob[2]
+            box, inv, pol, man, _, limit = ob[2]
             rendered = render(2, [r_bools(box), r_bools(inv), r_bools(pol),
-                                  r_bools(man)],
-                              [case["enable"], case["limit"]], rows)
+                                  r_bools(man)], [case["enable"], limit], rows)
         else:
             rq, xf, yf, fall_used = ob[2]
-            xs, ys = scaled(xf, rq["xscale"]), scaled(yf, rq["yscale"])
-            rendered = render(3, [r_pairs(array_to_pairs(xf)),
-                                  r_pairs(array_to_pairs(yf)),
-                                  r_pairs(exact_pairs(xs)),
-                                  r_pairs(exact_pairs(ys)),
-                                  r_bools(fall_used)],
-                              [rq["downsample"], rq["ri"]], rows)
+            xlog, ylog = rq["xscale"] == "log", rq["yscale"] == "log"
+            rendered = render(
+                3, [r_pairs(array_to_pairs(xf)), r_pairs(array_to_pairs(yf)),
+                    r_pairs(exact_pairs(scaled(xf, "log"))) if xlog else "[]",
+                    r_pairs(exact_pairs(scaled(yf, "log"))) if ylog else "[]",
+                    r_bools(fall_used)],
+                [rq["downsample"], rq["ri"], int(xlog), int(ylog)], rows)
         checks.append((rendered, flats))
     return dict(checks=checks, fails=fails, nontrivial=nontrivial,
                 problems=problems)
@@ -1032,7 +1204,7 @@ def run(run):
     if run.thorough:
         cases += gen_cases(run.rng, True, 2000, 500, 300)
     else:
-        cases += gen_cases(run.rng, False, 280, 80, 50)
+        cases += gen_cases(run.rng, False, 200, 60, 34)
     rendered = []
     owners = []
     for c in cases:
@@ -1093,7 +1265,7 @@ def explicit(case):
         return case
     a, b, pa, pb = case_arrays(case)
     c = dict(kind=case["kind"], samples=case["samples"], ri=case["ri"],
-             a=[list(p) for p in pa])
+             np=case.get("np", 0), a=[list(p) for p in pa])
     if case["kind"] == "grid":
         c["b"] = [list(p) for p in pb]
     return c
